@@ -56,7 +56,7 @@ func cliStreamEval(r *core.Run, c *cliStreamCase) {
 			}
 			want.Write(alone.Stdout)
 		default:
-			want.WriteString(sg.Text)
+			want.WriteString(string(sg.Text))
 		}
 	}
 	r.Count("pp_runs", 1)
@@ -102,7 +102,7 @@ func runC02(r *core.Run) {
 		if rr.Chance(1, 3) {
 			t = t[:len(t)-len(eol)]
 		}
-		c := &streamCase{Stream: &gen.Stream{Segs: []gen.Seg{{Text: t}}}, Chunk: []int{0, 1, 7, 4096}[i%4]}
+		c := &streamCase{Stream: &gen.Stream{Segs: []gen.Seg{{Text: gen.BinStr(t)}}}, Chunk: []int{0, 1, 7, 4096}[i%4]}
 		c.Stream = gen.Normalize(c.Stream)
 		streamEval(r, c, "conservation")
 		r.Distinct(core.HashStr(t))
